@@ -26,7 +26,7 @@ man = {
     ],
     "checks": [],
     "not_applicable": [],
-    "notes": "See DESIGN.md. Exit codes: 0 held (KNOWN-FINDING lines possible), 1 VIOLATION, 2 machinery error.",
+    "notes": "See DESIGN.md (§0 as built). Exit codes: 0 held (KNOWN-FINDING lines possible), 1 VIOLATION, 2 machinery error. Hooks: every /repo commit is either `verif hooks:` (guarded by the cargo feature, net diff add-only: f25cafd had turned nine match arms into blocks, ee9fb1a restores those lines and re-expresses the counters as added statements) or `fix:` (unguarded minimal repairs, listed in known_findings.json). Seeded changes and verdicts: seeded/, DESIGN.md §13.",
 }
 for p in props:
     pid = p['id']
